@@ -467,7 +467,7 @@ func OverLimit(v any) string {
 		if a == nil {
 			return ""
 		}
-		if len(a.Assets) > channel.MaxNumAssets || len(a.Backends) > channel.MaxNumAssets {
+		if len(a.Assets) > channel.MaxNumAssets {
 			return "Allocation.assets"
 		}
 		if s := balsOver("Allocation.Balances", a.Balances); s != "" {
